@@ -191,7 +191,11 @@ func mapRich(t *rapid.T) *recipe.File {
 				var tag []recipe.TagKV
 				nk := rapid.IntRange(2, 8).Draw(t, "ntagkeys")
 				for k := 0; k < nk; k++ {
-					tag = append(tag, recipe.TagKV{K: recipe.Text(fmt.Sprintf("k%d", (k*7+j)%11)), V: recipe.Text(rapid.SampledFrom([]string{"a", "b,omitempty", "`", "\""}).Draw(t, "tv"))})
+					key := fmt.Sprintf("k%d", (k*7+j)%11)
+					if rapid.IntRange(0, 2).Draw(t, "casekey") == 0 {
+						key = rapid.SampledFrom([]string{"json", "JSON", "Json", "db", "DB", "Db", "xml", "XML"}).Draw(t, "casekeyname")
+					}
+					tag = append(tag, recipe.TagKV{K: recipe.Text(key), V: recipe.Text(rapid.SampledFrom([]string{"a", "b,omitempty", "`", "\""}).Draw(t, "tv"))})
 				}
 				seen := map[recipe.Text]bool{}
 				var uniq []recipe.TagKV
